@@ -63,7 +63,9 @@ AgreeFaithful == MutAgreeOn(c, TRUE)
 Emit == LET v == RVerdict(c)
             a == AVerdict(c, TRUE)
             F == Final(c.d, c.path)
+            ai == AVerdict(c, FALSE)
         IN PrintT(<<"CASE", ToJson([c |-> c, ok |-> v.ok, unc |-> v.unc, codes |-> SetToSortSeq(v.codes, <),
+                                    iout |-> ai.out, icodes |-> SetToSortSeq(ai.codes, <),
                                     f |-> F, et |-> ExpectType(F, c.k), tt |-> Target(c),
                                     crossed |-> RWalk(c.d, c.path, FALSE).crossed,
                                     agree |-> MutAgreeOn(c, TRUE), mout |-> a.out, mcodes |-> SetToSortSeq(a.codes, <), taken |-> a.taken])>>)
